@@ -115,7 +115,48 @@ pub fn c03_k(ctx: &mut Ctx, k: usize) {
     }
 }
 
+/// kmer_pos_maps is a function of k alone: every short sequence of calls with different k in ONE process must give,
+/// at every position, what a single call gives
+fn c03_call_sequences(ctx: &mut Ctx) {
+    let mut sh = ctx.shard;
+    let kmax = 5usize;
+    let index: Vec<Vec<u128>> = (0..=kmax).map(|k| if k == 0 { vec![] } else { model::canon_index(k) }).collect();
+    let mut n = 0u64;
+    for a in 1..=kmax {
+        for b in 1..=kmax {
+            for c in 1..=kmax {
+                for d in 1..=kmax {
+                    if !sh.mine() {
+                        continue;
+                    }
+                    let seq = [a, b, c, d, a, b];
+                    ctx.journal.note(|| format!("C03 call sequence {:?}", seq));
+                    ctx.rep.evaluations += 1;
+                    n += 1;
+                    for (i, &k) in seq.iter().enumerate() {
+                        let r = guard(|| KmerGenerator::kmer_pos_maps(k));
+                        let ok = match &r {
+                            Ok((pm, pk, count)) => {
+                                *count == index[k].len() && pm.len() as u128 == model::pow4(k) && pk.len() == *count
+                                    && index[k].iter().enumerate().all(|(rank, &code)| pm[code as usize] == rank && pk.get(&rank) == Some(&(code as u64)))
+                            }
+                            Err(_) => false,
+                        };
+                        if !ok {
+                            viol(ctx, "call-sequence", i, format!("kmer_pos_maps called with k = {:?} in one process: call {} (k={}) does not return the maps of k={} (column count {:?})", seq, i, k, k, r.as_ref().map(|t| t.2).ok()), vec!["case".into(), "C03seq".into(), seq.iter().map(|k| k.to_string()).collect::<Vec<_>>().join(",")]);
+                            return;
+                        }
+                    }
+                    ctx.rep.nontrivial += 1;
+                }
+            }
+        }
+    }
+    ctx.rep.count("cases.call_sequences", n);
+}
+
 pub fn c03(ctx: &mut Ctx) {
+    c03_call_sequences(ctx);
     let mut sh = ctx.shard;
     // largest k first so that the long ones start early on separate shards
     for k in (1..=ctx.pick(10usize, 12)).rev() {
@@ -520,7 +561,11 @@ fn c11_file(ctx: &mut Ctx, records: &[Vec<u8>], s_size: usize, threads: usize, m
     let inp = format!("{}/c11_in.fa", ctx.scratch);
     let outp = format!("{}/c11_out.txt", ctx.scratch);
     write_fasta(&inp, records);
-    let _ = std::fs::remove_file(&outp);
+    // the output of the previous case stays in place (sizes go up and down over one path), except where a refusal is
+    // expected: there "no row for the bad record" is judged on what this run wrote
+    if records.iter().any(|r| r.iter().any(|&b| model::class(b).is_none())) {
+        let _ = std::fs::remove_file(&outp);
+    }
     let argv = vec!["case".to_string(), "C11file".to_string(), tag.to_string(), s_size.to_string(), threads.to_string(), mem.to_string()];
     ctx.journal.note(|| format!("C11 file {} S={} threads={} mem={}", tag, s_size, threads, mem));
     ctx.rep.evaluations += 1;
@@ -577,6 +622,11 @@ pub fn cgr_record_sets() -> Vec<(&'static str, Vec<Vec<u8>>)> {
     sets.push(("empty-last", vec![b"ACG".to_vec(), b"ACGTACGTAC".to_vec(), b"".to_vec()]));
     sets.push(("empty-last-2", vec![b"ACGTACGTAC".to_vec(), b"ACG".to_vec(), b"".to_vec(), b"".to_vec()]));
     sets.push(("bad-second", vec![b"ACG".to_vec(), b"ANG".to_vec(), b"T".to_vec()]));
+    sets.push(("bad-trailing-N", vec![b"ACG".to_vec(), b"TTN".to_vec()]));
+    sets.push(("bad-trailing-NN", vec![b"ACGTNN".to_vec()]));
+    sets.push(("bad-leading-N", vec![b"NACGT".to_vec(), b"AC".to_vec()]));
+    sets.push(("bad-all-N", vec![b"AC".to_vec(), b"NNN".to_vec()]));
+    sets.push(("bad-trailing-n-lower", vec![b"acgtn".to_vec()]));
     sets.push(("bad-last", vec![b"ACG".to_vec(), b"TT".to_vec(), b"TTx".to_vec()]));
     sets
 }
@@ -772,7 +822,7 @@ fn c12_file(ctx: &mut Ctx, records: &[Vec<u8>], k: usize, s_size: usize, norm: b
     let inp = format!("{}/c12_in.fa", ctx.scratch);
     let outp = format!("{}/c12_out.txt", ctx.scratch);
     write_fasta(&inp, records);
-    let _ = std::fs::remove_file(&outp);
+    // the output of the previous case stays in place: sizes go up and down over one path
     let argv = vec!["case".to_string(), "C12file".to_string(), tag.to_string(), k.to_string(), s_size.to_string(), (norm as u8).to_string(), threads.to_string(), mem.to_string()];
     ctx.journal.note(|| format!("C12 file {} k={} threads={} mem={}", tag, k, threads, mem));
     ctx.rep.evaluations += 1;
@@ -1021,6 +1071,19 @@ pub fn replay(ctx: &mut Ctx, args: &[String]) {
         "C04" => {
             let k: usize = args[2].parse().unwrap();
             c04_one(ctx, &oligo_set(k), "replay", &unhex(&args[1]), true)
+        }
+        "C03seq" => {
+            let ks: Vec<usize> = args[1].split(',').map(|k| k.parse().unwrap()).collect();
+            let idx: Vec<Vec<u128>> = (0..=10).map(|k| if k == 0 { vec![] } else { model::canon_index(k) }).collect();
+            for (i, &k) in ks.iter().enumerate() {
+                let (pm, pk, count) = KmerGenerator::kmer_pos_maps(k);
+                let ok = count == idx[k].len() && idx[k].iter().enumerate().all(|(rank, &code)| pm[code as usize] == rank && pk.get(&rank) == Some(&(code as u64)));
+                if !ok {
+                    viol(ctx, "call-sequence", i, format!("kmer_pos_maps sequence {:?}: call {i} wrong", ks), vec![]);
+                    break;
+                }
+            }
+            ctx.rep.evaluations += 1;
         }
         "C11reuse" | "C12reuse" => {
             let steps: Vec<&str> = args[1..].iter().map(|s| s.as_str()).collect();
